@@ -117,6 +117,74 @@ Proof.
   - cbn [In]. rewrite IH. tauto.
 Qed.
 
+(* ---- the matcher reads the subject as UTF-8, one code point at a time, and only moves forward inside the subject ---- *)
+Lemma rune_at_width s i r w : rune_at s i = Some (r, w) -> (1 <= w <= 4)%nat /\ (i + w <= length s)%nat.
+Proof.
+  unfold rune_at. intros H.
+  destruct (nth_error s i) as [b0|] eqn:E0; [|discriminate].
+  assert (L0 : (i < length s)%nat) by (apply nth_error_Some; congruence).
+  destruct (b0 <? 128); [inversion H; subst; lia|].
+  destruct (nth_error s (S i)) as [b1|] eqn:E1; [|inversion H; subst; lia].
+  assert (L1 : (S i < length s)%nat) by (apply nth_error_Some; congruence).
+  destruct ((194 <=? b0) && (b0 <=? 223)).
+  { destruct (cont_byte b1); inversion H; subst; lia. }
+  cbv zeta in H.
+  match type of H with (if negb ?c then _ else _) = _ => destruct (negb c) end; [inversion H; subst; lia|].
+  destruct (nth_error s (S (S i))) as [b2|] eqn:E2; [|inversion H; subst; lia].
+  assert (L2 : (S (S i) < length s)%nat) by (apply nth_error_Some; congruence).
+  destruct (negb (cont_byte b2)); [inversion H; subst; lia|].
+  destruct ((224 <=? b0) && (b0 <=? 239)); [inversion H; subst; lia|].
+  destruct ((240 <=? b0) && (b0 <=? 244)); [|inversion H; subst; lia].
+  destruct (nth_error s (S (S (S i)))) as [b3|] eqn:E3; [|inversion H; subst; lia].
+  assert (L3 : (S (S (S i)) < length s)%nat) by (apply nth_error_Some; congruence).
+  destruct (cont_byte b3); inversion H; subst; lia.
+Qed.
+
+Lemma rune_at_ascii s i b : nth_error s i = Some b -> b < 128 -> rune_at s i = Some (b, 1%nat).
+Proof. intros E Hb. unfold rune_at. rewrite E. apply N.ltb_lt in Hb. now rewrite Hb. Qed.
+
+Lemma closure_inv (P : nat -> Prop) step : (forall x y, P x -> In y (step x) -> P y) ->
+  forall fuel acc, (forall x, In x acc -> P x) -> forall z, In z (closure fuel step acc) -> P z.
+Proof.
+  intros Hstep. induction fuel as [|f IH]; intros acc Hacc z Hz; cbn [closure] in Hz; [now apply Hacc|].
+  destruct (Nat.eqb _ _); [now apply Hacc|].
+  apply IH in Hz; [exact Hz|]. intros x Hx. apply (proj1 (nodupn_In _ _)) in Hx. apply in_app_or in Hx. destruct Hx as [Hx|Hx]; [now apply Hacc|].
+  apply in_flat_map in Hx. destruct Hx as (a & Ha & Hy). apply (Hstep a); [now apply Hacc|exact Hy].
+Qed.
+
+Theorem ends_bounded s : forall e i j, (i <= length s)%nat -> In j (ends e s i) -> (i <= j <= length s)%nat.
+Proof.
+  induction e as [c| |neg rs| |a IHa b IHb|a IHa b IHb|a IHa|a IHa|a IHa| |]; intros i j Hi Hj; cbn [ends] in Hj.
+  - destruct (nth_error s i) as [x|] eqn:E; [|contradiction].
+    assert ((i < length s)%nat) by (apply nth_error_Some; congruence).
+    destruct (x =? c); [|contradiction]. destruct Hj as [<-|[]]. lia.
+  - destruct (rune_at s i) as [[r w]|] eqn:E; [|contradiction]. apply rune_at_width in E.
+    destruct (r =? 10); [contradiction|]. destruct Hj as [<-|[]]. lia.
+  - destruct (rune_at s i) as [[r w]|] eqn:E; [|contradiction]. apply rune_at_width in E.
+    destruct (in_class neg rs r); [|contradiction]. destruct Hj as [<-|[]]. lia.
+  - destruct Hj as [<-|[]]. lia.
+  - apply (proj1 (nodupn_In _ _)) in Hj. apply in_flat_map in Hj. destruct Hj as (k & Hk & Hj). apply IHa in Hk; [|exact Hi]. apply IHb in Hj; lia.
+  - apply (proj1 (nodupn_In _ _)) in Hj. apply in_app_or in Hj. destruct Hj as [Hj|Hj]; [apply IHa in Hj|apply IHb in Hj]; lia.
+  - apply (closure_inv (fun x => (i <= x <= length s)%nat) (ends a s)) in Hj; [exact Hj| |].
+    + intros x y Hx Hy. apply IHa in Hy; lia.
+    + intros x [<-|[]]. lia.
+  - apply (proj1 (nodupn_In _ _)) in Hj. apply in_flat_map in Hj. destruct Hj as (k & Hk & Hj). apply IHa in Hk; [|exact Hi].
+    apply (closure_inv (fun x => (k <= x <= length s)%nat) (ends a s)) in Hj; [lia| |].
+    + intros x y Hx Hy. apply IHa in Hy; lia.
+    + intros x [<-|[]]. lia.
+  - apply (proj1 (nodupn_In _ _)) in Hj. destruct Hj as [<-|Hj]; [lia|]. apply IHa in Hj; lia.
+  - destruct (Nat.eqb i 0); [|contradiction]. destruct Hj as [<-|[]]. lia.
+  - destruct (Nat.eqb i (length s)); [|contradiction]. destruct Hj as [<-|[]]. lia.
+Qed.
+
+(* `.` and a class consume one code point: two dots match U+2028 followed by `a` (four bytes), one dot does not match U+2028 alone
+   followed by anything, and the bytes of an invalid sequence count one by one *)
+Example dot_is_a_code_point :
+  full_match (RCat RAny RAny) [226; 128; 168; 97] = true /\ full_match (RCat RAny (RCat RAny (RCat RAny RAny))) [226; 128; 168; 97] = false /\
+  full_match (RCat RAny RAny) [226; 128] = true /\ full_match (RClass true [(47, 47)]) [195; 169] = true /\ full_match RAny [195; 169] = true /\
+  full_match (RCat RAny RAny) [237; 160; 128] = false /\ full_match (RCat RAny (RCat RAny RAny)) [237; 160; 128] = true.
+Proof. vm_compute. repeat split. Qed.
+
 Theorem wrap_new_full e s : search (wrap_new e) s = full_match e s.
 Proof.
   unfold search, full_match, wrap_new.
